@@ -293,15 +293,25 @@ class C14(Check):
         R.out('rex=%d/%d:%s' % (len(base), n, sh)
               if base[:1] != ['!exception'] else 'exc:%s' % base[1])
 
-        def cmp(family, got, inp):
+        GROUP = {'perm': 'order', 'dict': 'form', 'series': 'form',
+                 'categorical': 'form', 'two-series': 'form',
+                 'repeat-list': 'repeat', 'repeat-dict': 'repeat'}
+
+        def cmp(family, got, inp, reordered_input=False):
             R.ev()
             if got != base:
                 R.out('differs:%s' % family)
-                R.viol('%s:o%d:%s' % (family, o, sh),
+                group = GROUP.get(family, family)
+                if reordered_input and group == 'form':
+                    group = 'order'
+                kind = ('reordered' if sorted(map(str, got))
+                        == sorted(map(str, base)) else 'different')
+                R.viol('%s:%s:%s' % (group, kind, 'default-options' if o == 0
+                                     else 'non-default-options'),
                        'same-multiset-same-result',
                        {'examples': xs, 'options': opts, 'variant': family,
                         'input': inp, 'got': got, 'base_input': xs,
-                        'base': base}, family)
+                        'base': base, 'shapes': sh}, family)
 
         cmp('repeat-call', self.ex(list(xs), opts), xs)
         for p in itertools.permutations(range(n)):
@@ -312,7 +322,7 @@ class C14(Check):
         orders = [list(xs)] + ([list(reversed(xs))] if n > 1 else [])
         for inp in orders:
             d = dict((s, 1) for s in inp)
-            cmp('dict', self.ex(d, opts), {'dict': inp})
+            cmp('dict', self.ex(d, opts), {'dict': inp}, inp != list(xs))
         extra = [s for s in ('q-q', 'zz', 'Q') if s not in xs][0]
         d = {extra: 0}
         d.update((s, 1) for s in xs)
@@ -331,7 +341,8 @@ class C14(Check):
             for inp in orders:
                 col = inp[:1] + [None] + inp[1:] + inp[:1]
                 s = pd.Series(col, dtype=object)
-                cmp('series', self.call(pdx, s), {'series': col})
+                cmp('series', self.call(pdx, s), {'series': col},
+                    inp != list(xs))
             if n:
                 s = pd.Series(pd.Categorical(list(xs) + list(xs[:1])))
                 cmp('categorical', self.call(pdx, s), {'categorical': xs})
@@ -341,11 +352,16 @@ class C14(Check):
             cmp('two-series', self.call(pdx, cols),
                 {'series': [list(xs[:h]) + [None],
                             list(xs[h:]) + list(xs[:1])]})
-        # an unrelated call with other options in between changes nothing
+        # an unrelated call with other options made first, in a pristine
+        # module instance, changes nothing
+        keep = self.rexpy
+        self.rexpy = self.fresh_module()
+        self.reset()
         self.ex(list(FOREIGN[0]), FOREIGN[1])
         R.ev()
         cmp('after-unrelated-call', self.ex(list(xs), opts),
             {'first': list(FOREIGN), 'then': xs})
+        self.rexpy = keep
         # seeded call on an input that needs no sampling: reproducible from
         # two pre-states, generator untouched
         rnd = self.random
